@@ -809,8 +809,19 @@ impl<B> Flow<B, Redirect> {
             }
         };
 
+        // A Host header set by the user belongs to the host of the request it was set on.
+        let host_changed = match (previous.uri().host(), uri.host()) {
+            (Some(a), Some(b)) => !a.eq_ignore_ascii_case(b),
+            _ => true,
+        };
+
         let mut request = previous.take_request();
         *request.method_mut() = new_method;
+
+        if host_changed {
+            // The header is derived from the new uri when the request is written.
+            request.headers_mut().remove("host");
+        }
 
         // Next state
         let mut next = Flow::new(request)?;
